@@ -63,7 +63,16 @@ OP = '%c19.'
 OPS = {
     'line_key': (['List α'], 'Bool', 'PyRtC19.lineKey'),     # L5: the caller's predicate `key`, a type-class parameter
     'join': (['List α', 'List (List α)'], 'List α', 'PyRtC19.join'),     # L6: `sep.join(parts)`
+    # --- bytes and binary files (B-rules).  A byte is an item of the type variable β with an instance [PyRtC19.Byte β]
+    # (spec `classes`; its value as a number is read only by the operations below: the code never computes with a byte)
+    'bytes_splitlines': (['List β'], 'List (List β)', 'PyRtC19.bytesSplitlines'),     # `b.splitlines()`
+    'rev_tail': (['List (List β)'], 'List (List β)', 'PyRtC19.revTail'),               # `ls[:0:-1]`
+    'reversed': (['List (List β)'], 'List (List β)', 'PyRtC19.reversed'),              # `ls[::-1]`
+    'head': (['List (List β)'], 'List β', 'PyRtC19.head'),            # `ls[0]` where `ls` is known to be non-empty
+    'file_read': (['List β', 'Int', 'Int'], 'List β', 'PyRtC19.fileRead'),            # `f.read(n)` at (data, pos)
+    'seek_set': (['Int'], 'Int', 'PyRtC19.seekSet?', True),                # `f.seek(p)`: ValueError for a negative p
 }
+BYTES_T = ('List', ('Var', 'β'))
 
 
 # --------------------------------------------------------------------------------------------------- prepass
@@ -184,6 +193,279 @@ class _Rewrite(ast.NodeTransformer):
         return n
 
 
+# --------------------------------------------------------------------------------------------------- B-rules (bytes, files)
+
+def _names(node, name, ctxs=(ast.Load, ast.Store, ast.Del)):
+    return [n for n in ast.walk(node) if isinstance(n, ast.Name) and n.id == name and isinstance(n.ctx, ctxs)]
+
+
+def _opcall(name, args, at):
+    return ast.copy_location(ast.Call(func=ast.Name(id=OP + name, ctx=ast.Load()), args=list(args), keywords=[]), at)
+
+
+def _is_minus_one(n):
+    return (isinstance(n, ast.UnaryOp) and isinstance(n.op, ast.USub) and isinstance(n.operand, ast.Constant)
+            and n.operand.value == 1 and type(n.operand.value) is int) or \
+        (isinstance(n, ast.Constant) and type(n.value) is int and n.value == -1)
+
+
+def _file_prepass(f, cfg, notes):
+    """B1-B8 (see the module docstring): a binary file object as (content, position), bytes as lists"""
+    fc = cfg['file']
+    F, DATA, POS = fc['param'], fc['data'], fc['pos']
+    nones = list(cfg.get('none_params', []))
+    argn = [a.arg for a in f.args.args]
+    if F not in argn or any(p not in argn for p in nones):
+        raise Unsupported(f, 'the declared file / None parameters are not parameters of the function')
+    if f.args.vararg or f.args.kwarg or f.args.kwonlyargs or f.args.posonlyargs:
+        raise Unsupported(f, 'parameter kinds')
+    for n in ast.walk(f):
+        if isinstance(n, ast.Name) and n.id in (DATA, POS):
+            raise Unsupported(n, 'the name %s reserved for the abstract file is used by the source' % n.id)
+        if isinstance(n, (ast.FunctionDef, ast.Lambda, ast.ClassDef, ast.Global, ast.Nonlocal)) and n is not f:
+            raise Unsupported(n, 'nested scope')
+    # ---- B1: the two probes of the prologue (top level only)
+    body = list(f.body)
+    out = []
+    i = 0
+    while i < len(body):
+        st = body[i]
+        if isinstance(st, ast.Try) and not st.orelse and not st.finalbody and len(st.handlers) == 1 and len(st.body) == 1:
+            h = st.handlers[0]
+            htypes = h.type.elts if isinstance(h.type, ast.Tuple) else ([h.type] if h.type is not None else [])
+            has_attr_err = any(isinstance(t, ast.Name) and t.id == 'AttributeError' for t in htypes)
+            b = st.body[0]
+            # (a) try: P = P or F.<attr>  except AttributeError: P = None      (P declared None)
+            if has_attr_err and len(htypes) == 1 and h.name is None and isinstance(b, ast.Assign) and len(b.targets) == 1 \
+                    and isinstance(b.targets[0], ast.Name) and b.targets[0].id in nones \
+                    and isinstance(b.value, ast.BoolOp) and isinstance(b.value.op, ast.Or) and len(b.value.values) == 2 \
+                    and isinstance(b.value.values[0], ast.Name) and b.value.values[0].id == b.targets[0].id \
+                    and isinstance(b.value.values[1], ast.Attribute) and isinstance(b.value.values[1].value, ast.Name) \
+                    and b.value.values[1].value.id == F \
+                    and len(h.body) == 1 and isinstance(h.body[0], ast.Assign) and len(h.body[0].targets) == 1 \
+                    and isinstance(h.body[0].targets[0], ast.Name) and h.body[0].targets[0].id == b.targets[0].id \
+                    and isinstance(h.body[0].value, ast.Constant) and h.body[0].value.value is None:
+                notes.add('c19:none-probe')
+                i += 1
+                continue
+            # (b) V = F ; try: F = V.detach()  except (AttributeError, ...): pass
+            if has_attr_err and h.name is None and len(h.body) == 1 and isinstance(h.body[0], ast.Pass) \
+                    and isinstance(b, ast.Assign) and len(b.targets) == 1 and isinstance(b.targets[0], ast.Name) \
+                    and b.targets[0].id == F and isinstance(b.value, ast.Call) and not b.value.args and not b.value.keywords \
+                    and isinstance(b.value.func, ast.Attribute) and b.value.func.attr == 'detach' \
+                    and isinstance(b.value.func.value, ast.Name):
+                V = b.value.func.value.id
+                if V == F:
+                    notes.add('c19:detach-probe')
+                    i += 1
+                    continue
+                prev = out[-1] if out else None
+                if isinstance(prev, ast.Assign) and len(prev.targets) == 1 and isinstance(prev.targets[0], ast.Name) \
+                        and prev.targets[0].id == V and isinstance(prev.value, ast.Name) and prev.value.id == F \
+                        and len(_names(f, V)) == 2:
+                    out.pop()
+                    notes.add('c19:detach-probe')
+                    i += 1
+                    continue
+        out.append(st)
+        i += 1
+    f.body = out
+    # ---- B2: parameters declared None
+    for P in nones:
+        if _names(f, P, (ast.Store, ast.Del)):
+            raise Unsupported(f, 'the parameter %s (declared None) is assigned' % P)
+
+    class _Fold(ast.NodeTransformer):
+        def visit_IfExp(self, n):
+            self.generic_visit(n)
+            if isinstance(n.test, ast.Name) and n.test.id in nones:
+                notes.add('c19:none-fold')
+                return n.orelse
+            return n
+
+        def visit_If(self, n):
+            self.generic_visit(n)
+            if isinstance(n.test, ast.Name) and n.test.id in nones:
+                notes.add('c19:none-fold')
+                return n.orelse or [ast.copy_location(ast.Pass(), n)]
+            return n
+    _Fold().visit(f)
+    for P in nones:
+        if _names(f, P):
+            raise Unsupported(_names(f, P)[0], 'the parameter %s (declared None) is used otherwise than as a truth test' % P)
+    # ---- B4: seek / tell / read on the declared file parameter
+    if _names(f, F, (ast.Store, ast.Del)):
+        raise Unsupported(f, 'the file parameter %s is rebound' % F)
+
+    def is_f_call(node, meth):
+        return isinstance(node, ast.Call) and isinstance(node.func, ast.Attribute) and node.func.attr == meth \
+            and isinstance(node.func.value, ast.Name) and node.func.value.id == F and not node.keywords
+
+    def whence(node):
+        src = ast.unparse(node)
+        return {'os.SEEK_SET': 0, 'os.SEEK_END': 2, 'io.SEEK_SET': 0, 'io.SEEK_END': 2, '0': 0, '2': 2}.get(src)
+
+    def name(n_, ctx):
+        return ast.Name(id=n_, ctx=ctx)
+
+    class _Tell(ast.NodeTransformer):
+        def visit_Call(self, n):
+            self.generic_visit(n)
+            if is_f_call(n, 'tell') and not n.args:
+                notes.add('c19:file-tell')
+                return ast.copy_location(name(POS, ast.Load()), n)
+            return n
+
+    def stmts(ss):
+        res = []
+        for st in ss:
+            if isinstance(st, ast.Expr) and is_f_call(st.value, 'seek'):
+                a = st.value.args
+                if len(a) == 2 and whence(a[1]) == 2 and isinstance(a[0], ast.Constant) and a[0].value == 0 \
+                        and type(a[0].value) is int:
+                    notes.add('c19:file-seek-end')
+                    res.append(ast.copy_location(ast.Assign(
+                        targets=[name(POS, ast.Store())],
+                        value=ast.Call(func=name('len', ast.Load()), args=[name(DATA, ast.Load())], keywords=[])), st))
+                    continue
+                if len(a) == 1 or (len(a) == 2 and whence(a[1]) == 0):
+                    notes.add('c19:file-seek-set')
+                    res.append(ast.copy_location(ast.Assign(
+                        targets=[name(POS, ast.Store())], value=_opcall('seek_set', [_Tell().visit(a[0])], st)), st))
+                    continue
+                raise Unsupported(st, 'seek with this whence')
+            if isinstance(st, ast.Assign) and len(st.targets) == 1 and isinstance(st.targets[0], ast.Name) \
+                    and is_f_call(st.value, 'read') and len(st.value.args) == 1:
+                V = st.targets[0].id
+                notes.add('c19:file-read')
+                res.append(ast.copy_location(ast.Assign(
+                    targets=[name(V, ast.Store())],
+                    value=_opcall('file_read', [name(DATA, ast.Load()), name(POS, ast.Load()),
+                                                _Tell().visit(st.value.args[0])], st)), st))
+                res.append(ast.copy_location(ast.Assign(
+                    targets=[name(POS, ast.Store())],
+                    value=ast.BinOp(left=name(POS, ast.Load()), op=ast.Add(),
+                                    right=ast.Call(func=name('len', ast.Load()), args=[name(V, ast.Load())], keywords=[]))), st))
+                continue
+            for fld in ('body', 'orelse', 'finalbody'):
+                if isinstance(getattr(st, fld, None), list) and getattr(st, fld) and isinstance(getattr(st, fld)[0], ast.stmt):
+                    setattr(st, fld, stmts(getattr(st, fld)))
+            if isinstance(st, ast.Try):
+                for h in st.handlers:
+                    h.body = stmts(h.body)
+            res.append(st)
+        return res
+    f.body = stmts(f.body)
+    _Tell().visit(f)
+    if _names(f, F):
+        raise Unsupported(_names(f, F)[0], 'the file object %s is used otherwise than by seek / tell / read statements' % F)
+    new_args = []
+    for a in f.args.args:
+        if a.arg == F:
+            new_args += [ast.arg(arg=DATA), ast.arg(arg=POS)]
+        elif a.arg not in nones:
+            new_args.append(a)
+    f.args.args = new_args
+    f.args.defaults = []
+    notes.add('c19:file-param')
+
+    # ---- B3 / B5 / B6 / B8: expressions
+    class _Expr(ast.NodeTransformer):
+        def visit_Constant(self, n):
+            if isinstance(n.value, bytes):
+                notes.add('c19:bytes-literal')
+                return _opcall('bytes', [n], n)
+            return n
+
+        def visit_Call(self, n):
+            if isinstance(n.func, ast.Name) and n.func.id == OP + 'bytes':
+                return n
+            self.generic_visit(n)
+            if isinstance(n.func, ast.Attribute) and n.func.attr == 'splitlines' and not n.args and not n.keywords:
+                notes.add('c19:bytes-splitlines')
+                return _opcall('bytes_splitlines', [n.func.value], n)
+            return n
+
+        def visit_Subscript(self, n):
+            self.generic_visit(n)
+            sl = n.slice
+            if isinstance(n.ctx, ast.Load) and isinstance(sl, ast.Slice) and sl.step is not None and _is_minus_one(sl.step) \
+                    and sl.lower is None:
+                if sl.upper is None:
+                    notes.add('c19:reversed-slice')
+                    return _opcall('reversed', [n.value], n)
+                if isinstance(sl.upper, ast.Constant) and type(sl.upper.value) is int and sl.upper.value == 0:
+                    notes.add('c19:reversed-slice')
+                    return _opcall('rev_tail', [n.value], n)
+            return n
+
+        def visit_BoolOp(self, n):
+            # B8: `len(X) < c or ... X[0] ...` (c >= 1): in the later operands X is not empty
+            v0 = n.values[0]
+            if isinstance(n.op, ast.Or) and isinstance(v0, ast.Compare) and len(v0.ops) == 1 and isinstance(v0.ops[0], ast.Lt) \
+                    and isinstance(v0.left, ast.Call) and isinstance(v0.left.func, ast.Name) and v0.left.func.id == 'len' \
+                    and len(v0.left.args) == 1 and isinstance(v0.left.args[0], ast.Name) and not v0.left.keywords \
+                    and isinstance(v0.comparators[0], ast.Constant) and type(v0.comparators[0].value) is int \
+                    and v0.comparators[0].value >= 1:
+                X = v0.left.args[0].id
+
+                class _Head(ast.NodeTransformer):
+                    def visit_Subscript(self, m):
+                        self.generic_visit(m)
+                        if isinstance(m.ctx, ast.Load) and isinstance(m.value, ast.Name) and m.value.id == X \
+                                and isinstance(m.slice, ast.Constant) and type(m.slice.value) is int and m.slice.value == 0:
+                            notes.add('c19:guarded-head')
+                            return _opcall('head', [m.value], m)
+                        return m
+                n.values = [v0] + [_Head().visit(v) for v in n.values[1:]]
+            self.generic_visit(n)
+            return n
+    _Expr().visit(f)
+    # ---- B7: L.append(E) on a local that only ever holds fresh lists
+    app = [st for st in ast.walk(f) if isinstance(st, ast.Expr) and isinstance(st.value, ast.Call)
+           and isinstance(st.value.func, ast.Attribute) and st.value.func.attr == 'append'
+           and isinstance(st.value.func.value, ast.Name) and len(st.value.args) == 1 and not st.value.keywords]
+    for L in sorted({st.value.func.value.id for st in app}):
+        if L in [a.arg for a in f.args.args]:
+            raise Unsupported(f, 'append on a parameter')
+        allowed = set()
+        for n in ast.walk(f):
+            if isinstance(n, ast.Call) and isinstance(n.func, ast.Name) and (n.func.id == 'len' or n.func.id.startswith(OP)):
+                allowed.update(id(a) for a in n.args if isinstance(a, ast.Name))
+            if isinstance(n, ast.Subscript) and isinstance(n.value, ast.Name):
+                allowed.add(id(n.value))
+            if isinstance(n, ast.For) and isinstance(n.iter, ast.Name):
+                allowed.add(id(n.iter))
+            if isinstance(n, ast.Expr) and n in app:
+                allowed.add(id(n.value.func.value))
+            if isinstance(n, ast.Assign):
+                ok = len(n.targets) == 1 and isinstance(n.targets[0], ast.Name)
+                if any(isinstance(t, ast.Name) and t.id == L for t in ast.walk(ast.Module(body=[ast.Expr(value=t_) for t_ in n.targets], type_ignores=[]))):
+                    if not (ok and isinstance(n.value, ast.Call) and isinstance(n.value.func, ast.Name)
+                            and n.value.func.id.startswith(OP) and not n.value.func.id.startswith(OP + 'head')):
+                        raise Unsupported(n, 'the appended-to local %s is bound to something else than an operation result' % L)
+        for n in _names(f, L, (ast.Load,)):
+            if id(n) not in allowed:
+                raise Unsupported(n, 'the appended-to local %s may be aliased' % L)
+        for n in ast.walk(f):
+            if isinstance(n, (ast.For, ast.comprehension)) and any(isinstance(t, ast.Name) and t.id == L for t in ast.walk(n.target)):
+                raise Unsupported(n, 'the appended-to local %s is a loop target' % L)
+
+    class _App(ast.NodeTransformer):
+        def visit_Expr(self, st):
+            if st in app:
+                L = st.value.func.value.id
+                notes.add('c19:append')
+                return ast.copy_location(ast.Assign(
+                    targets=[ast.Name(id=L, ctx=ast.Store())],
+                    value=ast.BinOp(left=ast.Name(id=L, ctx=ast.Load()), op=ast.Add(),
+                                    right=ast.List(elts=[st.value.args[0]], ctx=ast.Load()))), st)
+            return st
+    _App().visit(f)
+    ast.fix_missing_locations(f)
+    return f
+
+
 def prepass(fdef, tree, spec, notes):
     """-> the function rewritten into the base subset (a copy); `notes` collects the names of the applied rules"""
     cfg = _cfg(spec)
@@ -192,6 +474,8 @@ def prepass(fdef, tree, spec, notes):
     mtree = getattr(fdef, '_module_tree', None) or tree
     f = copy.deepcopy(fdef)
     f._module_tree = mtree
+    if cfg.get('file'):
+        return _file_prepass(f, cfg, notes)
     texts = list(cfg.get('text', []))
     extra = []                                   # parameters appended by L1 / L4
     group = cfg.get('group', 1)
@@ -309,9 +593,17 @@ def translate_op(ex, node, expected):
             terms.append(py2lean.FnTranslator._atom(e))
         rt = py2lean.parse_type(cs['result'])
         return '(%s %s)' % (cs['lean_name'], ' '.join(terms)), (('List', rt) if cs['kind'] == 'generator' else rt)
+    if name == 'bytes':
+        # B3: a bytes literal is the list of its byte values
+        if len(node.args) != 1 or not (isinstance(node.args[0], ast.Constant) and isinstance(node.args[0].value, bytes)):
+            raise Unsupported(node, 'bytes literal expected')
+        return '(PyRtC19.bytesLit [%s] : List β)' % ', '.join(str(b) for b in node.args[0].value), BYTES_T
     if name not in OPS or node.keywords:
         raise Unsupported(node, 'unknown operation %s' % node.func.id)
-    ptypes, rtype, lean = OPS[name]
+    ptypes, rtype, lean = OPS[name][:3]
+    raises = len(OPS[name]) > 3 and OPS[name][3]
+    if raises and not ex.fn.raises:
+        raise Unsupported(node, 'a raising operation outside the raising mode')
     if len(node.args) != len(ptypes):
         raise Unsupported(node, 'operation arity')
     terms = []
@@ -320,6 +612,8 @@ def translate_op(ex, node, expected):
         if t != py2lean.parse_type(pt):
             raise Unsupported(a, 'operation %s: argument of type %s where %s is declared' % (name, t, pt))
         terms.append(py2lean.FnTranslator._atom(e))
+    if raises:
+        return ex.partial('%s %s' % (lean, ' '.join(terms)), node), py2lean.parse_type(rtype)
     return '(%s %s)' % (lean, ' '.join(terms)), py2lean.parse_type(rtype)
 
 
@@ -414,6 +708,17 @@ _DRV_CASES['indent'] = r'''
     | none => "bad"
 '''
 
+# case id 2: `2 lfuel preseek pos blocksize <data>` -> the generated reverse_iter_lines at β = Nat on the abstract file
+_DRV_CASES['reverse_iter_lines'] = r'''
+  | 2 :: lf :: ps :: pos :: bs :: r =>
+    match takeN r with
+    | some (d, _) =>
+      match Src.jsonutils.reverse_iter_lines (β := Nat) lf.toNat (d.map Int.toNat) pos bs (ps != 0) with
+      | .ok ls => showInts (1 :: encLines ls)
+      | .error _ => "0"
+    | none => "bad"
+'''
+
 # the menu of `key` predicates of the indent cases: index -> (Python callable, the same predicate in the Lean driver)
 KEY_MENU = [bool, lambda l: True, lambda l: False, lambda l: l[:1] == 'a', lambda l: len(l) % 2 == 0]
 _DRV_KEYS = r'''
@@ -490,7 +795,42 @@ def _cases_indent(mod, spec, rng, quick):
     return out
 
 
-CASES = {'iter_splitlines': _cases_iter_splitlines, 'indent': _cases_indent}
+BYTE_ALPHABET = [10, 13, 10, 13, 10, 0x61, 0x62, 0x20, 0, 0x85, 0x0b, 0x0c, 0xff, 0x7b]
+
+
+def _cases_reverse_iter_lines(mod, spec, rng, quick):
+    import io
+    out = []
+    fixed = [b'', b'\n', b'a', b'a\n', b'\na', b'\r\n', b'a\r\nb\rc\nd', b'\n\n\n', b'ab\n\ncd', b'\r', b'x\r\r\ny\n',
+             b'\x0b\x0c\x85\n', b'{"a": 1}\n{"b": 2}\n']
+    datas = list(fixed)
+    for _ in range(300 if quick else 4000):
+        k = rng.choice([0, 1, 2, 3, 5, 8, 13, 21, 40])
+        datas.append(bytes(rng.choice(BYTE_ALPHABET) for _ in range(k)))
+    for d in datas:
+        bs = rng.choice([1, 1, 2, 3, 4, 7, 16, 4096])
+        preseek = rng.random() < 0.5
+        pos = rng.randrange(0, len(d) + 3) if rng.random() < 0.8 else 0
+        f = io.BytesIO(d)
+        f.seek(pos)
+        try:
+            want = [1] + _enc_bytes_lines(list(mod.reverse_iter_lines(f, blocksize=bs, preseek=preseek)))
+        except Exception as e:      # noqa: BLE001
+            want = [0]
+        out.append(([2, max(len(d), pos) + 2, int(preseek), pos, bs] + [len(d)] + list(d), want, repr((d, bs, preseek, pos))))
+    return out
+
+
+def _enc_bytes_lines(ls):
+    out = [len(ls)]
+    for l in ls:
+        if not isinstance(l, bytes):
+            raise TypeError('a line that is not bytes: %r' % (l,))
+        out += [len(l)] + list(l)
+    return out
+
+
+CASES = {'iter_splitlines': _cases_iter_splitlines, 'indent': _cases_indent, 'reverse_iter_lines': _cases_reverse_iter_lines}
 
 
 def selftest(pids, quick=False, seed=0, verbose=True):
@@ -554,7 +894,7 @@ def selftest(pids, quick=False, seed=0, verbose=True):
             r['mismatches'] += 1
             mismatches.append((name, what, 'Python stream %s but Lean stream %s' % (' '.join(map(str, want)), got)))
     rj = reject_tests(verbose=False)       # side conditions of the front-end: every violating snippet is refused
-    report['_reject_tests'] = {'snippets': len(REJECT), 'not_refused': [w for w, _ in rj]}
+    report['_reject_tests'] = {'snippets': len(REJECT) + len(REJECT_REV), 'not_refused': [w for w, _ in rj]}
     for what, why in rj:
         mismatches.append(('reject-test', what, str(why)))
     report['_mismatches'] = [{'function': n, 'case': c, 'what': b} for n, c, b in mismatches[:5]]
@@ -615,6 +955,75 @@ REJECT = [
 ]
 
 
+_RJ_REV = '''import io
+import os
+def reverse_iter_lines(file_obj, blocksize=4096, preseek=True, encoding=None):
+    try:
+        encoding = encoding or file_obj.encoding
+    except AttributeError:
+        encoding = None
+    orig_obj = file_obj
+    try:
+        file_obj = orig_obj.detach()
+    except (AttributeError, io.UnsupportedOperation):
+        pass
+    empty_bytes, newline_bytes, empty_text = b'', b'\\n', ''
+    if preseek:
+        file_obj.seek(0, os.SEEK_END)
+    buff = empty_bytes
+    cur_pos = file_obj.tell()
+    while 0 < cur_pos:
+        read_size = min(blocksize, cur_pos)
+        cur_pos -= read_size
+        file_obj.seek(cur_pos, os.SEEK_SET)
+        cur = file_obj.read(read_size)
+        buff = cur + buff
+        lines = buff.splitlines()
+        if len(lines) < 2 or lines[0] == empty_bytes:
+            continue
+        if buff[-1:] == newline_bytes:
+            yield empty_text if encoding else empty_bytes
+        for line in lines[:0:-1]:
+            yield line.decode(encoding) if encoding else line
+        buff = lines[0]
+    if buff:
+        lines = buff.splitlines()
+        if buff[-1:] == newline_bytes:
+            lines.append(empty_bytes)
+        for line in lines[::-1]:
+            yield line.decode(encoding) if encoding else line
+'''
+
+
+def _rv(old, new):
+    assert _RJ_REV.count(old) >= 1, old
+    return _RJ_REV.replace(old, new, 1)
+
+
+REJECT_REV = [
+    ('None parameter assigned', lambda: _rv("    if preseek:", "    encoding = 'utf-8'\n    if preseek:")),
+    ('None parameter used as a value', lambda: _rv("yield line.decode(encoding) if encoding else line\n        buff", "yield line.decode(encoding)\n        buff")),
+    ('None probe with another handler body', lambda: _rv("    except AttributeError:\n        encoding = None", "    except AttributeError:\n        encoding = 'ascii'")),
+    ('file object passed on', lambda: _rv("    buff = empty_bytes", "    print(file_obj)\n    buff = empty_bytes")),
+    ('file object rebound', lambda: _rv("    buff = empty_bytes", "    file_obj = io.BytesIO(b'')\n    buff = empty_bytes")),
+    ('seek relative to the end', lambda: _rv("file_obj.seek(0, os.SEEK_END)", "file_obj.seek(-1, os.SEEK_END)")),
+    ('seek relative to the position', lambda: _rv("file_obj.seek(cur_pos, os.SEEK_SET)", "file_obj.seek(cur_pos, os.SEEK_CUR)")),
+    ('read without a size', lambda: _rv("file_obj.read(read_size)", "file_obj.read()")),
+    ('read inside an expression', lambda: _rv("        cur = file_obj.read(read_size)\n        buff = cur + buff", "        buff = file_obj.read(read_size) + buff")),
+    ('another file method', lambda: _rv("cur = file_obj.read(read_size)", "cur = file_obj.readline(read_size)")),
+    ('detach alias used later', lambda: _rv("    if buff:\n", "    orig_obj.close()\n    if buff:\n")),
+    ('reserved name used', lambda: _rv("    buff = empty_bytes", "    file_data = 1\n    buff = empty_bytes")),
+    ('appended-to list aliased', lambda: _rv("        if buff[-1:] == newline_bytes:\n            lines.append", "        other = lines\n        if buff[-1:] == newline_bytes:\n            lines.append")),
+    ('appended-to list bound to a display', lambda: _rv("        lines = buff.splitlines()\n        if buff[-1:] == newline_bytes:\n            lines.append", "        lines = [buff]\n        if buff[-1:] == newline_bytes:\n            lines.append")),
+    ('slice with another step', lambda: _rv("lines[::-1]", "lines[::-2]")),
+    ('reversed slice with a lower bound', lambda: _rv("lines[:0:-1]", "lines[3:0:-1]")),
+    ('index 1 in the guarded test', lambda: _rv("lines[0] == empty_bytes", "lines[1] == empty_bytes")),
+    ('guard that does not guarantee an item', lambda: _rv("len(lines) < 2 or", "len(lines) < 0 or")),
+    ('splitlines with keepends', lambda: _rv("lines = buff.splitlines()\n        if len", "lines = buff.splitlines(True)\n        if len")),
+    ('splitlines of a str', lambda: _rv("lines = buff.splitlines()\n        if len", "lines = 'a b'.splitlines()\n        if len")),
+]
+
+
 def reject_tests(verbose=True):
     """-> list of snippets that were NOT refused (must be empty); the unmodified snippet must be accepted"""
     import srctie_specs
@@ -641,4 +1050,25 @@ def reject_tests(verbose=True):
             bad.append((what, 'accepted'))
         elif verbose:
             print('refused (%s): %s' % (what, infos[idx]['error'][:110]))
+
+    def tr_rev(src):
+        specs = [copy.deepcopy({k: v for k, v in sp.items() if not k.startswith('_')}) for sp in srctie_specs.SPECS['C19']
+                 if sp['module'] == 'boltons.jsonutils']
+        _t, infos = py2lean.translate_source(src, specs, 'boltons.jsonutils', '<snippet>')
+        return infos
+    ok = tr_rev(_RJ_REV)
+    if any(i.get('error') for i in ok):
+        bad.append(('the unmodified reverse_iter_lines snippet', [i.get('error') for i in ok]))
+    for what, mk in REJECT_REV:
+        src = mk()
+        try:
+            compile(src, '<snippet>', 'exec')
+        except SyntaxError as e:
+            bad.append((what, 'snippet does not compile: %s' % e))
+            continue
+        infos = tr_rev(src)
+        if not infos[0].get('error'):
+            bad.append((what, 'accepted'))
+        elif verbose:
+            print('refused (%s): %s' % (what, infos[0]['error'][:110]))
     return bad
